@@ -635,6 +635,14 @@ def substitute(e, sub, memo):
                      'srem': srem, 'and': band, 'or': bor, 'xor': bxor, 'shl': shl, 'lshr': lshr,
                      'ashr': ashr}[op]
                 r = f(a, b, e.w)
+        # the rebuilt term may itself be a recorded concretisation (chains of substitutions)
+        n = 0
+        while type(r) is E and r is not e and n < 8:
+            r2 = sub.get(r)
+            if r2 is None:
+                break
+            r = r2
+            n += 1
     memo[e] = r
     return r
 
